@@ -1,7 +1,7 @@
 (* C10 witnesses: refutations of the full statements on the faithful model (each is replayed
    on the real code by findings/C10-*.py) and non-vacuity examples for the guards. *)
 From Coq Require Import ZArith List Bool String Lia.
-From PAFC10 Require Import Model Proofs Proofs2 Proofs3 Proofs4.
+From PAFC10 Require Import Model Proofs Proofs2 Proofs3 Proofs4 Proofs5.
 Import ListNotations.
 Open Scope string_scope.
 Open Scope list_scope.
@@ -27,12 +27,12 @@ Proof. vm_compute. reflexivity. Qed.
 (* (a.b != 1) & (d == 1): the junction drops the inversion *)
 Definition p_inv := PAnd (PNot (PCmp ["a"; "b"] CEq (KNum 8))) (PCmp ["d"] CEq (KNum 8)).
 Example inverted_merge_refuted :
-  exists q, compile current p_inv = Ok q /\ wf_fit f0 = true /\ sem q f0 = true /\ eval p_inv f0 = false.
+  exists q, compile legacy p_inv = Ok q /\ wf_fit f0 = true /\ sem q f0 = true /\ eval p_inv f0 = false.
 Proof. eexists. vm_compute. repeat split. Qed.
-Example inverted_merge_guard : safe current p_inv = false /\ safe_with repaired false true true true p_inv = true.
+Example inverted_merge_guard : safe legacy p_inv = false /\ safe_with current false true true true p_inv = true.
 Proof. vm_compute. split; reflexivity. Qed.
 Example inverted_merge_repaired :
-  exists q, compile repaired p_inv = Ok q /\ sem q f0 = false /\ sem q f1 = false.
+  exists q, compile current p_inv = Ok q /\ sem q f0 = false /\ sem q f1 = false.
 Proof. eexists. vm_compute. repeat split. Qed.
 
 (* (a == A) | (a == 1.0): merged Or inner-joins `value` and loses the type branch *)
@@ -74,18 +74,18 @@ Proof. vm_compute. split; reflexivity. Qed.
 
 (* slicing: [0:2], [1:3], [3:1] on five fits; chained negative start; child fits *)
 Example slice_stop_refuted :
-  map fid (run_slices current false db5 [(Some 0%Z, Some 2%Z)]) = ["f0"; "f1"; "f2"] /\
+  map fid (run_slices legacy false db5 [(Some 0%Z, Some 2%Z)]) = ["f0"; "f1"; "f2"] /\
   map fid (spec_slices false db5 [(Some 0%Z, Some 2%Z)]) = ["f0"; "f1"] /\
-  map fid (run_slices current false db5 [(Some 1%Z, Some 3%Z)]) = ["f1"] /\
-  map fid (run_slices current false db5 [(Some 3%Z, Some 1%Z)]) = ["f3"].
+  map fid (run_slices legacy false db5 [(Some 1%Z, Some 3%Z)]) = ["f1"] /\
+  map fid (run_slices legacy false db5 [(Some 3%Z, Some 1%Z)]) = ["f3"].
 Proof. vm_compute. repeat split. Qed.
 Example slice_chained_negative_refuted :
-  map fid (run_slices current false db5 [(Some 1%Z, None); (Some (-1)%Z, None)]) = ["f3"; "f4"] /\
+  map fid (run_slices legacy false db5 [(Some 1%Z, None); (Some (-1)%Z, None)]) = ["f3"; "f4"] /\
   map fid (spec_slices false db5 [(Some 1%Z, None); (Some (-1)%Z, None)]) = ["f4"].
 Proof. vm_compute. repeat split. Qed.
 Definition dbc := [f3; f0; f1; f2; f4].     (* f3 is a child fit *)
 Example slice_children_refuted :
-  map fid (run_slices current true dbc [(Some 1%Z, None)]) = ["f0"; "f1"; "f2"; "f4"] /\
+  map fid (run_slices legacy true dbc [(Some 1%Z, None)]) = ["f0"; "f1"; "f2"; "f4"] /\
   map fid (spec_slices true dbc [(Some 1%Z, None)]) = ["f1"; "f2"; "f4"].
 Proof. vm_compute. repeat split. Qed.
 
@@ -124,18 +124,18 @@ Proof. vm_compute. reflexivity. Qed.
 Example open_slices_hold : Forall open_slice [(Some 1%Z, None); (None, None); (Some 2%Z, None)].
 Proof. repeat constructor; simpl; lia. Qed.
 Example repaired_slices_example :
-  map fid (run_slices repaired true db5 [(Some 1%Z, Some (-1)%Z); (Some (-1)%Z, None)]) = ["f2"].
+  map fid (run_slices current true db5 [(Some 1%Z, Some (-1)%Z); (Some (-1)%Z, None)]) = ["f2"].
 Proof. vm_compute. reflexivity. Qed.
 
 (* ---------- the refutations in the form stated in Props.v ---------- *)
-Lemma exact_refuted :
-  exists p q f, compile current p = Ok q /\ wf_pred p = true /\ wf_fit f = true /\ sem q f <> eval p f.
+Lemma legacy_exact_refuted :
+  exists p q f, compile legacy p = Ok q /\ wf_pred p = true /\ wf_fit f = true /\ sem q f <> eval p f.
 Proof.
   destruct inverted_merge_refuted as [q [Hq [W [Hs He]]]].
   exists p_inv, q, f0. repeat split; auto. rewrite Hs, He. discriminate.
 Qed.
-Lemma exact_repaired_still_refuted :
-  exists p q f, compile repaired p = Ok q /\ wf_pred p = true /\ wf_fit f = true /\ sem q f <> eval p f.
+Lemma exact_refuted :
+  exists p q f, compile current p = Ok q /\ wf_pred p = true /\ wf_fit f = true /\ sem q f <> eval p f.
 Proof.
   exists p_join. eexists. exists f0. vm_compute. repeat split; discriminate.
 Qed.
@@ -145,15 +145,72 @@ Lemma total_refuted :
 Proof.
   split; [exists p_notj; exact not_junction_fails | exists p_tab3; exact three_tables_fails].
 Qed.
-Lemma slice_refuted :
-  exists L sl, run_slices current false L [sl] <> spec_slices false L [sl].
+Lemma legacy_slice_refuted :
+  exists L sl, run_slices legacy false L [sl] <> spec_slices false L [sl].
 Proof.
   exists db5, (Some 0%Z, Some 2%Z). intro H. apply (f_equal (map fid)) in H.
   vm_compute in H. discriminate H.
 Qed.
-Lemma slice_children_refuted' :
-  exists L sl, open_slice sl /\ run_slices current true L [sl] <> spec_slices true L [sl].
+Lemma legacy_slice_children_refuted :
+  exists L sl, open_slice sl /\ run_slices legacy true L [sl] <> spec_slices true L [sl].
 Proof.
   exists dbc, (Some 1%Z, None). split; [split; simpl; [reflexivity | lia]|].
   intro H. apply (f_equal (map fid)) in H. vm_compute in H. discriminate H.
 Qed.
+
+(* ---------- defects of the current code outside the junction algebra ---------- *)
+(* g.name == "lens": `name` is an attribute of NamedQuery, the comparison is a Python bool *)
+Definition f_sh := mk "fs" (OInst "c10_classes.Root" [("g", OInst A [("name", OStr "lens")])]) [] false.
+Definition p_shadow := PCmp ["g"; "name"] CEq (KStr "lens").
+Example shadow_refuted :
+  wf_pred p_shadow = true /\ eval p_shadow f_sh = true /\ model_query current [f_sh] p_shadow = Err EShadow /\
+  (exists q, compile current (PCmp ["name"; "g"] CEq (KStr "lens")) = Ok q /\ has_shadow (PCmp ["name"; "g"] CEq (KStr "lens")) = false).
+Proof. vm_compute. repeat split. eexists. split; reflexivity. Qed.
+
+(* d == "it's": the constant is pasted between quotes *)
+Definition f_qt := mk "fq" (OInst "c10_classes.Root" [("d", OStr "it's")]) [] false.
+Definition p_quote := PCmp ["d"] CEq (KStr "it's").
+Example quote_refuted :
+  eval p_quote f_qt = true /\ model_query current [f_qt] p_quote = Err ESql /\
+  (exists l, model_query repaired [f_qt] p_quote = Ok l /\ map fid l = ["fq"]).
+Proof. vm_compute. repeat split. eexists. split; reflexivity. Qed.
+
+(* search.name.contains("F0") / contains("_0") select the fit named "f0" *)
+Definition p_like1 := PAttr (AContains "name" "F0").
+Definition p_like2 := PAttr (AContains "name" "_0").
+Example like_refuted :
+  (exists q, compile current p_like1 = Ok q /\ sem q f0 = true /\ eval p_like1 f0 = false) /\
+  (exists q, compile current p_like2 = Ok q /\ sem q f0 = true /\ eval p_like2 f0 = false) /\
+  acond_plain f0 (AContains "name" "F0") = false /\ acond_plain f0 (AContains "name" "f") = true.
+Proof. vm_compute. repeat split; eexists; repeat split. Qed.
+
+(* a slice is forgotten by a later order_by / query; the step of a slice is ignored *)
+Definition ops_lost := [OOrder OIdKey false; OSlice (Some 1%Z) (Some 3%Z) None; OOrder (ONumKey "max_log_likelihood") true].
+Definition ops_lostq := [OOrder OIdKey false; OSlice (Some 1%Z) (Some 3%Z) None; OQuery (PAttr (AEqS "name" (Some "f4")))].
+Definition ops_step := [OOrder OIdKey false; OSlice None None (Some 2%Z)].
+Definition ops_rev := [OOrder OIdKey false; OSlice None None (Some (-1)%Z)].
+Definition ids_of (r : result (list fit * list (okey * bool))) : list string :=
+  match r with Ok (l, _) => map fid l | Err _ => ["error"] end.
+Example ops_refuted :
+  ids_of (run_ops current false db5 ops_lost) = ["f0"; "f1"; "f2"; "f3"; "f4"] /\
+  map fid (spec_ops false db5 ops_lost) = ["f1"; "f2"] /\
+  ids_of (run_ops current false db5 ops_lostq) = ["f4"] /\
+  map fid (spec_ops false db5 ops_lostq) = [] /\
+  ids_of (run_ops current false db5 ops_step) = ["f0"; "f1"; "f2"; "f3"; "f4"] /\
+  map fid (spec_ops false db5 ops_step) = ["f0"; "f2"; "f4"] /\
+  ids_of (run_ops current false db5 ops_rev) = ["f0"; "f1"; "f2"; "f3"; "f4"] /\
+  map fid (spec_ops false db5 ops_rev) = ["f4"; "f3"; "f2"; "f1"; "f0"].
+Proof. vm_compute. repeat split. Qed.
+Lemma ops_refuted' :
+  exists db ops, (forall r, run_ops current false db ops = Ok r -> map fid (fst r) <> map fid (spec_ops false db ops)).
+Proof.
+  exists db5, ops_lost. intros r H. vm_compute in H. inversion H. subst r. vm_compute. discriminate.
+Qed.
+
+(* non-vacuity of the pipeline guard: a guarded predicate with ordering and slices on db5 *)
+Example pipeline_guard_holds : guard_db p_ok2 db5 /\ guard_db p_inv db5 /\ has_shadow p_ok2 = false /\ pred_quote p_ok2 = false.
+Proof. unfold guard_db. vm_compute. repeat split. Qed.
+Example canonical_ops_example :
+  ids_of (run_ops current true db5
+            (OQuery p_ok2 :: order_ops [(OIdKey, true)] ++ slice_ops [(Some 1%Z, None)])) = ["f2"; "f0"].
+Proof. vm_compute. reflexivity. Qed.
